@@ -479,11 +479,12 @@ def allocLoop (quota : Rat) : Nat → WProfile → Elected → Nat → Except Er
           allocLoop quota fuel r.1 r.2 (rem - members.length)
         else .ok (bump elected (Key.tie members) rem)
 
-/-- `AllocatedScoreSelector.evaluate` (cardinal.py L577-586): the keys of the distributor's result -/
+/-- `AllocatedScoreSelector.evaluate`: every key of the distributor's result as often as it won seats — a Tie key once
+    per seat it contests (fix 4ae6629; before, `list(result)` listed each key once) -/
 def allocatedSelector (quota : Rat → Nat → Rat) (votes : SProfile) (n : Nat) : Except Err (List Key) := do
   let cv : WProfile := votes.map (fun bn => (bn.1, ((bn.2 : Int) : Rat)))
   let q := quota (((totalVotes votes : Int)) : Rat) n
   let e ← allocLoop q n cv [] n
-  pure (e.map (·.1))
+  pure (e.flatMap (fun p => List.replicate p.2 p.1))
 
 end VL.Score
